@@ -1202,7 +1202,7 @@ def simplify_op(prop, op):
 
 
 def tiers(prop):
-    return {"quick": 16000, "thorough": 400000}
+    return {"quick": 16000, "thorough": 800000}
 
 
 def legs(prop, tier):
